@@ -71,6 +71,8 @@ Definition add_core_gen (ew : Z) (a2 b2 : Z) : Z :=
   cat_sem sa er mr3.                                                   (* sr = Buf(sa) *)
 Definition add_core := add_core_gen 5.
 Definition fpadd (a b : Z) : Z := add_core (fst (add_swap a b)) (snd (add_swap a b)).
+(* NOT the circuit: the same datapath with an 8-bit ediff wire (the defect of the 5-bit wire neutralised) *)
+Definition fpadd_wide (a b : Z) : Z := add_core_gen 8 (fst (add_swap a b)) (snd (add_swap a b)).
 
 (* ---- FPMult_SP(a, b, r) *)
 Definition fpmul (a b : Z) : Z :=
